@@ -11,7 +11,7 @@ from .common import is_callable_value, public_functional
 from ..core import AnalysisError, Report, Repo
 from ..oracle import oracle_function, std_globals
 from ..schemas import O, P, dim, hyper
-from ..values import ClassV, FuncV, Obj, T, TV, fmt
+from ..values import BOTTOM as BOTTOM_, ClassV, FuncV, Obj, T, TV, fmt
 
 CF = "unit_scaling/core/functional.py"
 MD = "unit_scaling/_modules.py"
@@ -48,6 +48,89 @@ def ref_forward(self, input):
     r = U.dropout(r, self.dropout_p, self.training)
     return U.residual_add(r, s, tau=self.mlp_tau)
 '''
+
+
+def option_domain(init: FuncV, name: str) -> list:
+    """A small set of values for a constructor option the scenarios do not know: taken from its annotation
+    and default (ints 0..3, both booleans, None for Optional); only the default when nothing better is known."""
+    import ast as _ast
+
+    a = init.node.args
+    allp = a.posonlyargs + a.args + a.kwonlyargs
+    defaults = dict(zip([q.arg for q in (a.posonlyargs + a.args)][len(a.posonlyargs + a.args) - len(a.defaults):], a.defaults))
+    defaults.update({q.arg: d for q, d in zip(a.kwonlyargs, a.kw_defaults) if d is not None})
+    par = next((q for q in allp if q.arg == name), None)
+    ann = _ast.unparse(par.annotation) if par is not None and par.annotation is not None else ""
+    dnode = defaults.get(name)
+    dval = "<none>"
+    if isinstance(dnode, _ast.Constant):
+        dval = dnode.value
+    out: list = []
+    if "bool" in ann or isinstance(dval, bool):
+        out += [False, True]
+    elif "int" in ann or (isinstance(dval, int) and not isinstance(dval, bool)):
+        out += [0, 1, 2, 3]
+    if "Optional" in ann or "None" in ann or dval is None:
+        out.append(None)
+    if dval != "<none>" and dval not in out:
+        out.append(dval)
+    return out
+
+
+def check_stack_execution(report: Report, repo: Repo, extra_options: list) -> None:
+    """R6: the stack runs every one of its layers exactly once, in order, each on the previous result.
+    nn.Sequential.forward does so (torch semantics); a forward / __call__ defined by the repository's
+    classes is executed abstractly for small depths, over small domains of the options the other
+    scenarios do not cover, in training and evaluation mode, with autograd enabled and disabled."""
+    import itertools
+
+    from ..nnmodel import container_super_hook
+
+    def opaque(f):
+        return isinstance(f, ClassV) and f.qualname in ("TransformerLayer",) or public_functional(f)
+
+    it = Interp(repo, opaque=opaque)
+    it.super_hook = container_super_hook("Sequential")
+    stack = it.get_global(MD, "TransformerStack")
+    cons = f"{MD}::TransformerStack.forward"
+    entry = it.class_attr(stack, "__call__") or it.class_attr(stack, "forward")
+    if not isinstance(entry, FuncV):
+        report.add("R6-execution", cons, True, "no class of the repository in the stack's chain defines forward/__call__: nn.Sequential.forward applies the layers in order", "nn.Sequential.forward", "nn.Sequential.forward", nontrivial=False)
+        return
+    init = it.class_attr(stack, "__init__")
+    doms = [option_domain(init, o_) or [None] for o_ in extra_options]
+    combos = list(itertools.product(*doms))[:64]
+    x = P("x", (dim("B"), dim("S"), dim("H")))
+    n_run = 0
+    for n in (1, 2, 3, 4, 5, 8, 13):
+        for combo in combos:
+            for training, grad in ((True, True), (True, False), (False, True), (False, False)):
+                opts = dict(zip(extra_options, combo))
+                lab = f"layers={n}, {opts}, training={training}, grad_enabled={grad}"
+                selfv = Obj("unit_scaling._modules.TransformerStack", cls=stack)
+                it.ext_results = {"torch.is_grad_enabled": grad}
+                try:
+                    made = it.call_function(init, [selfv], dict(layers=n, residual_scaling=O("residual_scaling"), hidden_size=dim("H"), heads=dim("h"), is_causal=True, **opts))
+                    if made is BOTTOM_:
+                        continue  # this combination of options is rejected at construction
+                    selfv.attrs["training"] = training
+                    mods = list(selfv.attrs.get("_modules", {}).values())
+                    it.events = []
+                    got = it.call_function(entry, [selfv, x], {})
+                    want = x
+                    for m_ in mods:
+                        want = it.call_function(m_, [want], {})
+                except Unsupported as e:
+                    report.add("R6-execution", cons, None, f"{lab}: outside the analysable fragment: {e}")
+                    continue
+                n_run += 1
+                if got is BOTTOM_:
+                    continue  # raises for this combination: no result to compare
+                wt = TM.term_of(want)
+                for guard, leaf in TM.leaves(got):
+                    ok = TM.term_equal(TM.term_of(leaf), wt)
+                    report.add("R6-execution", f"{cons}::order", ok, f"{lab} [{TM.guard_str(guard)}]: the result is layer[{n - 1}](...layer[0](input)): every layer applied exactly once, in order", fmt(TM.term_of(leaf))[:600], fmt(wt)[:600], nontrivial=False)
+    report.note("stack_executions", n_run)
 
 
 def check_layer_forward(report: Report, repo: Repo, rule: str) -> None:
@@ -139,12 +222,15 @@ def check(report: Report, repo: Repo) -> None:
         "TransformerLayer": ["hidden_size", "heads", "mhsa_tau", "mlp_tau", "is_causal", "dropout_p"],
         "TransformerDecoder": ["hidden_size", "vocab_size", "layers", "heads", "dropout_p", "residual_scaling"],
     }
+    stack_extra: list = []
     for cn_, known_ in KNOWN_OPTIONS.items():
         init_ = it2.class_attr(it2.get_global(MD, cn_), "__init__")
         names_ = it2.param_names(init_)[1:] if isinstance(init_, FuncV) else []
         extra_ = [x_ for x_ in names_ if x_ not in known_]
-        overrides_ = [st_.name for st_ in it2.get_global(MD, cn_).node.body if hasattr(st_, "name") and st_.name in ("forward", "__call__")] if cn_ == "TransformerStack" else []
-        report.add("R2-stack-wiring", f"{MD}::{cn_}.__init__::options", None if (extra_ or overrides_) else True, f"constructor options {extra_} / methods {overrides_} of {cn_} are not covered by the scenarios of this check: what they do to the residual structure is undecided", extra_ + overrides_, [], nontrivial=False)
+        if cn_ == "TransformerStack":
+            stack_extra = list(extra_)
+        # (a forward / __call__ the stack defines itself is decided by R6-execution below)
+        report.add("R2-stack-wiring", f"{MD}::{cn_}.__init__::options", None if extra_ else True, f"constructor options {extra_} of {cn_} are not covered by the scenarios of this check: what they do to the residual structure is undecided (R6 explores a small domain of each and reports what it finds)", extra_, [], nontrivial=False)
     for n in depths:
         stack = it2.get_global(MD, "TransformerStack")
         init = it2.class_attr(stack, "__init__")
@@ -224,4 +310,5 @@ def check(report: Report, repo: Repo) -> None:
         report.add("R4-decoder", f"{MD}::TransformerDecoder.__init__", None, f"outside the analysable fragment: {e}")
 
     check_layer_forward(report, repo, "R3-layer-pairing")
+    check_stack_execution(report, repo, stack_extra)
     report.floor("wiring obligations", len([o for o in report.obls if o.rule == "R2-stack-wiring"]), 20)
